@@ -130,6 +130,11 @@ func childMain(args []string) {
 	if n == 0 {
 		os.Exit(0)
 	}
+	if len(args) > 5 && args[5] == "reseal" {
+		// rotate and seal whatever Load replayed as an active fraction (a sealing error is logger.Fatal)
+		fm.SealForcedForTests()
+		say("RESEALED %s", strings.Join(fracmanager.VerifC08FracKinds(fm), ","))
+	}
 	docs := corpus(seed, n)
 	want := map[seq.ID]int{}
 	for i, d := range docs {
@@ -259,12 +264,12 @@ type childResult struct {
 	detail string
 }
 
-func runChild(dir string, seed int64, n int, skip, keep bool) childResult {
+func runChild(dir string, seed int64, n int, skip, keep bool, extra ...string) childResult {
 	exe, _ := os.Executable()
 	run := func() (string, error) {
 		ctx, cancel := context.WithTimeout(context.Background(), 120*time.Second)
 		defer cancel()
-		cmd := exec.CommandContext(ctx, exe, "child", dir, fmt.Sprint(seed), fmt.Sprint(n), vh.B(skip), vh.B(keep))
+		cmd := exec.CommandContext(ctx, exe, append([]string{"child", dir, fmt.Sprint(seed), fmt.Sprint(n), vh.B(skip), vh.B(keep)}, extra...)...)
 		cmd.Env = append(os.Environ(), "GOMEMLIMIT=2GiB")
 		var out bytes.Buffer
 		cmd.Stdout = &out
@@ -585,6 +590,7 @@ type harness struct {
 	orFull    *vh.Oracle
 	orOverlap *vh.Oracle
 	orSync    *vh.Oracle
+	orReseal  *vh.Oracle
 	orSys     *vh.Oracle
 	chSys     *vh.Channel
 	tplDir    string // valid files of one fraction (docs, meta from the active fraction; sdocs, index from its sealed form)
@@ -1046,6 +1052,25 @@ func (h *harness) crashSweep(skip, keep bool, n int, seed int64, rng *vh.RNG, ke
 				What:   fmt.Sprintf("restart from the directory as it is after %q (files %s) serves %q: %s", s.op, s.listing, res.served, res.detail),
 				Replay: []string{key}})
 		}
+		// the restart is not the end of the story: the fraction (if it came back as an active one) is sealed again, over
+		// whatever the interrupted seal left behind, and the store restarted once more
+		{
+			rd := s.dir + "-reseal"
+			copyFraction(s.dir, base, rd)
+			r1 := runChild(rd, seed, n, skip, keep, "reseal")
+			r2 := childResult{served: "-"}
+			if r1.served == "all" {
+				r2 = runChild(rd, seed, n, skip, keep)
+			}
+			key := fmt.Sprintf("reseal skip=%s keep=%s n=%d seed=%d point=%d(%s)", vh.B(skip), vh.B(keep), n, seed, i, s.op)
+			h.orReseal.Case(key, i > 0 && i < len(snaps)-1, cfgTag, "after="+strings.SplitN(s.op, ":", 2)[0], "served="+r1.served+"/"+r2.served)
+			if r1.served != "all" || r2.served != "all" {
+				h.rep.Violate(vh.Violation{Site: "frac/active_sealer.go:Seal", Class: "reseal-after-crash-fails",
+					What: fmt.Sprintf("crash after %q (files %s), restart, then rotate + seal of the replayed fraction: the sealing process serves %q (%s); the restart after it serves %q (%s)",
+						s.op, s.listing, r1.served, r1.detail, r2.served, r2.detail), Replay: []string{key}})
+			}
+			os.RemoveAll(rd)
+		}
 		// torn files: every sealing output that exists but was not fsynced since it was last written may be cut at any
 		// length by the crash (on the unchanged code these are exactly the temporary files)
 		switch f := strings.SplitN(s.op, ":", 2); f[0] {
@@ -1239,6 +1264,7 @@ func main() {
 		orFault:   vh.NewOracle("fault.restart", "after writeSealedFraction ran on an output whose k-th call failed, the harness does what frac.Seal/proxyFrac.Seal do next (error: nothing; nil: syncRename, directory sync, Active.Release) and restarts: every document must be served; quick: every k whose error was dropped (up to 6) + every 5th k, thorough: every k, once and persistent; non-trivial = the fault fired"),
 		orFull:    vh.NewOracle("seal.diskfull", "the real rotate + proxyFrac.Seal in a child process whose RLIMIT_FSIZE is lowered before the seal, so that every write growing a file beyond the limit fails (EFBIG) - limits spread from 16 bytes to the size of the largest sealed file; then a restart must serve every document; non-trivial = the seal failed"),
 		orOverlap: vh.NewOracle("seal.overlap", "two fractions sealed with the real frac.Seal, the second completely inside the window in which the first has returned from writeSortedDocs but not yet written its first index block (forced at the seal.sec point); after Release of both and a restart every document of both must be searchable and fetchable"),
+		orReseal:  vh.NewOracle("crash.reseal", "from the directory as it is at every file-operation boundary of sealing and release: restart, rotate and seal the fraction again if it was replayed as active (over the temporary files and the .sdocs the interrupted seal left), search and fetch everything, restart once more and search and fetch again - every document must be served both times and no process may die; non-trivial = a point strictly inside the seal"),
 		orSync:    vh.NewOracle("seal.syncfault", "the real rotate + proxyFrac.Seal in a child process in which one seal output (._index, ._sdocs) cannot be fsynced (pre-created as a symlink to /dev/null: writes succeed, fsync returns EINVAL): the seal must fail, the output must not get its final name, and a restart must serve every document"),
 		orSys:     vh.NewOracle("seal.syscalls.order", "durable before visible on the system calls of a real seal (child under strace, independent of the hook points): every rename of a temporary seal output to its final name is directly preceded - as far as that file is concerned - by its fsync"),
 		chSys:     vh.NewChannel("seal.syscalls", "the open(O_CREAT|O_TRUNC)/write/fsync/rename/unlink system calls on the sealed fraction's files and the fsync of the data directory, read off an strace of a child that rotates and seals through FracManager, vs SV.SealOps.sealTrace"),
@@ -1258,7 +1284,7 @@ func main() {
 			switch {
 			case strings.HasPrefix(l, "fault "):
 				h.faultRestart(faultCase{kv["skip"] == "1", kv["keep"] == "1", atoi("n"), seed, atoi("k"), kv["persistent"] == "1"})
-			case strings.HasPrefix(l, "crash "):
+			case strings.HasPrefix(l, "crash "), strings.HasPrefix(l, "reseal "):
 				h.crashSweep(kv["skip"] == "1", kv["keep"] == "1", atoi("n"), seed, rng, false)
 			case strings.HasPrefix(l, "syncfault "):
 				h.syncFault(kv["skip"] == "1", atoi("n"), seed, kv["suffix"])
@@ -1333,6 +1359,7 @@ func main() {
 	rep.AddOracle(h.orFull)
 	rep.AddOracle(h.orOverlap)
 	rep.AddOracle(h.orSync)
+	rep.AddOracle(h.orReseal)
 	rep.AddOracle(h.orSys)
 	rep.AddOracle(h.orSdocs)
 	sort.SliceStable(rep.Violations, func(i, j int) bool { return rep.Violations[i].Site < rep.Violations[j].Site })
